@@ -23,6 +23,8 @@ T = {
     "jrcxz": (2, "jcc", "Jrcxz"), "jecxz": (3, "jcc", "Jecxz"), "call32": (5, "call", "Call"), "ret": (1, "ret", "Ret"),
     "call_rax": (2, "call", "Call"), "jmp_rax": (2, "jmp", "Jmp"), "syscall": (2, "syscall", "Syscall"),
     "fault": (8, "fault", "Mov"), "invalid": (1, "nofetch", None), "hlt": (1, "nofetch", None),
+    # software interrupts behave like syscall: they complete iff a hook is registered for their mnemonic
+    "int80": (2, "syscall", "Int"), "int3": (1, "syscall", "Int3"), "int1": (1, "syscall", "Int1"),
 }
 
 
@@ -88,6 +90,9 @@ class Program:
         if t == "fault": return b"\x48\x8b\x04\x25\x00\x00\x00\x00"
         if t == "invalid": return b"\x06"
         if t == "hlt": return b"\xf4"
+        if t == "int80": return b"\xcd\x80"
+        if t == "int3": return b"\xcc"
+        if t == "int1": return b"\xf1"
         raise ValueError(t)
 
 
@@ -104,7 +109,7 @@ def random_program(rng, n, allow=("plain", "jmp", "jcc", "call", "ret"), fault_p
             insns.append({"t": rng.choice(["fault", "invalid", "hlt"])})
             continue
         if u < fault_p + syscall_p:
-            insns.append({"t": "syscall"})
+            insns.append({"t": rng.choice(["syscall", "syscall", "int80", "int3", "int1"])})
             continue
         kind = rng.choice(allow)
         lo = 0 if backward else k + 1
